@@ -186,6 +186,18 @@ func getName(nodeSet NodeSet, ok bool, nameType nameType) (Result, error) {
 		return String(fmt.Sprintf("{%s}%s", n.Space(), n.Local())), nil
 	}
 
+	if nameType == namespaceOnly {
+		return String(""), nil
+	}
+
+	if n, ok := firstNode.Node().(node.ProcInst); ok {
+		return String(n.Target()), nil
+	}
+
+	if n, ok := firstNode.Node().(node.Namespace); ok {
+		return String(n.Prefix()), nil
+	}
+
 	return String(""), nil
 }
 
